@@ -201,12 +201,65 @@ def eval (look : Name → Val) : Expr → Except Err Val
       | .ok .undef => .error .undefined     -- StrictLookup.undefined raises
       | r => r
 
-def evalArgs (look : Name → Val) : List Expr → Except Err (List Val)
+/-- an argument of a macro call: positional, or passed by keyword (`name=expr`) -/
+abbrev Arg := Option Name × Expr
+/-- a parameter of a macro: a name, with a default expression or without -/
+abbrev Param := Name × Option Expr
+
+/-- the arguments of `f(a, b, k=c)` are evaluated from left to right -/
+def evalArgs (look : Name → Val) : List Arg → Except Err (List (Option Name × Val))
   | [] => .ok []
-  | e :: es => do
+  | (k, e) :: es => do
       let v ← eval look e
       let vs ← evalArgs look es
-      pure (v :: vs)
+      pure ((k, v) :: vs)
+
+/-- `kwargs.pop(name)` -/
+def kwPop (p : Name) : List (Name × Val) → Option (Val × List (Name × Val))
+  | [] => none
+  | (k, v) :: r =>
+      if k = p then some (v, r)
+      else match kwPop p r with
+        | some (w, r') => some (w, (k, v) :: r')
+        | none => none
+
+/-- the loop of `DefDirective.__call__.function` over `self.args`: a parameter takes the next
+    positional argument; when these are used up, the keyword argument of its name, whatever its
+    value; else its default, evaluated now in the context of the call (the parameters bound so far
+    are not visible to it); else — no default — `None.evaluate` → AttributeError.  Surplus
+    positional and keyword arguments are dropped (no `*args` / `**kwargs` parameters here). -/
+def bindGo (look : Name → Val) : List Param → List Val → List (Name × Val) → Except Err (List (Name × Val))
+  | [], _, _ => .ok []
+  | (p, _) :: ps, v :: vs, kw => do
+      let rest ← bindGo look ps vs kw
+      pure ((p, v) :: rest)
+  | (p, dflt) :: ps, [], kw =>
+      match kwPop p kw with
+      | some (v, kw') => do
+          let rest ← bindGo look ps [] kw'
+          pure ((p, v) :: rest)
+      | none =>
+          match dflt with
+          | some e => do
+              let v ← eval look e
+              let rest ← bindGo look ps [] kw
+              pure ((p, v) :: rest)
+          | none => .error .attribute
+
+def positional : List (Option Name × Val) → List Val
+  | [] => []
+  | (none, v) :: r => v :: positional r
+  | (some _, _) :: r => positional r
+
+def keywords : List (Option Name × Val) → List (Name × Val)
+  | [] => []
+  | (none, _) :: r => keywords r
+  | (some k, v) :: r => (k, v) :: keywords r
+
+/-- bind the parameters of a macro to the evaluated arguments of a call -/
+def bindParams (look : Name → Val) (params : List Param) (args : List (Option Name × Val)) :
+    Except Err (List (Name × Val)) :=
+  bindGo look params (positional args) (keywords args)
 
 /-- `iter(x)` as `py:for` uses it -/
 def iterItems : Val → Except Err (List Val)
@@ -221,11 +274,11 @@ def iterItems : Val → Except Err (List Val)
 /-- what may stand in `${…}`, `py:content`, `py:replace`: an expression or a macro call -/
 inductive XExpr where
   | pure (e : Expr)
-  | call (f : Expr) (args : List Expr)    -- the callee expression (a name) is evaluated first
+  | call (f : Expr) (args : List Arg)     -- the callee expression (a name) is evaluated first; positional / keyword arguments
   deriving DecidableEq, Repr, Inhabited
 
 inductive Dir where
-  | def_ (name : Name) (params : List Name)
+  | def_ (name : Name) (params : List Param)   -- `f(a, b, c='x')`: parameters, the last ones with defaults
   | when (e : Option Expr)
   | otherwise
   | for_ (v : Name) (e : Expr)
